@@ -384,15 +384,6 @@ func loopTrip(a an.PathAtom) (n int64, ph *ssa.Phi, exit bool, ok bool) {
 	if !isC {
 		return 0, nil, false, false
 	}
-	if op == token.LEQ || op == token.GTR {
-		// x <= K continues exactly when x < K+1
-		k++
-		if op == token.LEQ {
-			op = token.LSS
-		} else {
-			op = token.GEQ
-		}
-	}
 	nf, okN := an.Norm(x)
 	if !okN || nf.Mode != an.ModeNone || len(nf.Lin.T) != 1 || !nf.Lin.C.IsInt() {
 		return 0, nil, false, false
@@ -418,11 +409,36 @@ func loopTrip(a an.PathAtom) (n int64, ph *ssa.Phi, exit bool, ok bool) {
 	if ph == nil {
 		return 0, nil, false, false
 	}
-	// the constant the counter starts at: its value on the edges that enter the loop
+	// the constant the counter starts at (its value on the edges that enter the loop) and its step
+	// (+1 or -1 on every back edge)
 	i0, haveInit := int64(0), false
+	step := int64(0)
 	for i, pred := range ph.Block().Preds {
 		if ph.Block().Dominates(pred) {
-			continue // back edge
+			if ph.Edges[i] == ssa.Value(ph) {
+				continue // an iteration that does not advance the counter (it bounds only some of the iterations)
+			}
+			bo, isBin := ph.Edges[i].(*ssa.BinOp)
+			if !isBin || (bo.Op != token.ADD && bo.Op != token.SUB) || bo.X != ssa.Value(ph) {
+				return 0, nil, false, false
+			}
+			cst, isConst := bo.Y.(*ssa.Const)
+			if !isConst || cst.Value == nil {
+				return 0, nil, false, false
+			}
+			v, exact := constant.Int64Val(constant.ToInt(cst.Value))
+			if !exact || v != 1 {
+				return 0, nil, false, false
+			}
+			st := int64(1)
+			if bo.Op == token.SUB {
+				st = -1
+			}
+			if step != 0 && step != st {
+				return 0, nil, false, false
+			}
+			step = st
+			continue
 		}
 		cst, isConst := ph.Edges[i].(*ssa.Const)
 		if !isConst || cst.Value == nil {
@@ -434,27 +450,44 @@ func loopTrip(a an.PathAtom) (n int64, ph *ssa.Phi, exit bool, ok bool) {
 		}
 		i0, haveInit = v, true
 	}
-	if !haveInit {
+	if !haveInit || step == 0 {
 		return 0, nil, false, false
 	}
-	n = k - nf.Lin.C.Num().Int64() - i0
-	// rotated loop: the entry is guarded by its own `i0 < K` test and the body runs once before the
-	// first continuation test
+	c := nf.Lin.C.Num().Int64()
+	if step > 0 {
+		// continues while x < K (x <= K is x < K+1)
+		if op == token.LEQ || op == token.GTR {
+			k++
+		}
+		exit = op == token.GEQ || op == token.GTR
+		n = k - c - i0
+	} else {
+		// counting down: continues while x > K (x >= K is x > K-1)
+		if op == token.GEQ || op == token.LSS {
+			k--
+		}
+		exit = op == token.LEQ || op == token.LSS
+		n = i0 + c - k
+	}
+	// rotated loop: the entry is guarded by its own test against the same bound and the body runs once
+	// before the first continuation test
 	for _, pred := range ph.Block().Preds {
 		if ph.Block().Dominates(pred) {
 			continue
 		}
 		if ifi, isIf := pred.Instrs[len(pred.Instrs)-1].(*ssa.If); isIf {
-			if bo, isBin := ifi.Cond.(*ssa.BinOp); isBin && bo.Op == token.LSS {
+			if bo, isBin := ifi.Cond.(*ssa.BinOp); isBin && (bo.Op == token.LSS || bo.Op == token.GTR || bo.Op == token.LEQ || bo.Op == token.GEQ) {
 				if cy, isConst := bo.Y.(*ssa.Const); isConst && cy.Value != nil {
-					if v, exact := constant.Int64Val(constant.ToInt(cy.Value)); exact && v == k {
-						n++
+					if v, exact := constant.Int64Val(constant.ToInt(cy.Value)); exact && (v == k || v == k-1 || v == k+1) {
+						if _, xConst := bo.X.(*ssa.Const); xConst {
+							n++
+						}
 					}
 				}
 			}
 		}
 	}
-	return n, ph, op == token.GEQ, true
+	return n, ph, exit, true
 }
 
 // loopInit returns the constant a loop counter (the header phi behind loop
